@@ -395,11 +395,19 @@ func findObject(pd *container, path string) (container, string) {
 }
 
 func (d *partialDoc) set(key string, val *lazyNode) error {
+	if *d == nil {
+		return ErrInvalid
+	}
+
 	(*d)[key] = val
 	return nil
 }
 
 func (d *partialDoc) add(key string, val *lazyNode) error {
+	if *d == nil {
+		return ErrInvalid
+	}
+
 	(*d)[key] = val
 	return nil
 }
